@@ -3,8 +3,8 @@
 classify_Cxx(case, failure) -> key of an entry of /verif/known_findings.json, or None.
 A predicate looks at the INPUT (case) to decide the class and at failure['what'] only to name the failing clause, so
 a different wrong result on the same input class (another clause of the property) is still reported as a violation.
-Predicates never look at observed outputs.  The canonical witness of every entry is re-run on every check
-(props.common.check_witnesses): if it stops failing, the entry is stale and that is reported.
+Predicates never look at observed outputs.  An entry that no failing case of a run falls into is reported by that run
+as "not reproduced" (NOTE line and coverage.known_findings_not_reproduced_in_this_run): stale, or outside the tier's domain.
 """
 import re
 
@@ -159,7 +159,7 @@ def classify_C06(case, failure):
         return 'C06:bounded:GO-terminator-followed-by-more-tokens'
     if what in ('fused-or-split', 'changed') and two_assignments(text):
         return 'C06:bounded:two-assignments-in-one-statement'
-    if what in ('fused-or-split', 'changed') and name_with_line_break(text):
+    if what in ('fused-or-split', 'changed', 'name-altered') and name_with_line_break(text):
         return 'C06:bounded:line-break-inside-bracket-or-backtick-name'
     return None
 
